@@ -1,1 +1,54 @@
 //! bounded stand-ins (never counted as proved), see C19
+#![allow(dead_code)]
+#[cfg(kani)]
+mod b19 {
+    use prefix_trie::*;
+    type P = (u8, u8);
+
+    fn any_key(max_len: u8) -> P {
+        let r: u8 = kani::any();
+        let l: u8 = kani::any();
+        kani::assume(l <= max_len);
+        (r, l)
+    }
+
+    /// operands with at most one entry each: `==` holds exactly when the entry sequences are equal
+    #[kani::proof]
+    #[kani::unwind(10)]
+    fn eq_1_1() {
+        let mut a = PrefixMap::<P, u8>::new();
+        let mut b = PrefixMap::<P, u8>::new();
+        let ha: bool = kani::any();
+        let hb: bool = kani::any();
+        let ka = any_key(8);
+        let kb = any_key(8);
+        let va: u8 = kani::any();
+        let vb: u8 = kani::any();
+        if ha { a.insert(ka, va); }
+        if hb { b.insert(kb, vb); }
+        let same = ha == hb && (!ha || (ka == kb && va == vb));
+        assert!((a == b) == same);
+        assert!((b == a) == same);
+        assert!(a == a);
+        kani::cover!(ha && hb && a == b);
+        kani::cover!(ha && !hb);
+    }
+
+    /// clone of a map with at most one entry is equal and independent
+    #[kani::proof]
+    #[kani::unwind(10)]
+    fn clone_1() {
+        let mut a = PrefixMap::<P, u8>::new();
+        let ha: bool = kani::any();
+        let ka = any_key(8);
+        let va: u8 = kani::any();
+        if ha { a.insert(ka, va); }
+        let mut c = a.clone();
+        assert!(a == c);
+        let kc = any_key(8);
+        c.insert(kc, 7);
+        assert!(a.len() == if ha { 1 } else { 0 });
+        assert!(a.get(&ka).copied() == if ha { Some(va) } else { None });
+        kani::cover!(ha);
+    }
+}
